@@ -144,6 +144,55 @@ theorem quantMag_is_core (E M off n : ℕ) (hB : 2 ^ (E - 1) ≤ 127) :
       mulPow2 (roundCore (23 - M) off (divPow2 (min n (absmaxBits E M)) (127 - 2 ^ (E - 1)))) (127 - 2 ^ (E - 1)) := by
   simp [quantMag, hB]
 
+/-! ### the final output: its discarded mantissa bits are zero -/
+
+/-- doubling / exponent increments keep divisibility by `2^k` (`k ≤ 23`) -/
+theorem mulPow2_dvd (k : ℕ) (hk : k ≤ 23) : ∀ (d n : ℕ), 2 ^ k ∣ n → 2 ^ k ∣ mulPow2 n d := by
+  have h23 : 2 ^ k ∣ 2 ^ 23 := Nat.pow_dvd_pow 2 hk
+  intro d
+  induction d with
+  | zero => intro n h; simpa [mulPow2] using h
+  | succ d ih =>
+    intro n h
+    unfold mulPow2
+    split
+    · exact Nat.dvd_zero _
+    · split
+      · exact ih (2 * n) (Dvd.dvd.mul_left h 2)
+      · split
+        · exact Dvd.dvd.mul_left h23 255
+        · exact Nat.dvd_add h (Dvd.dvd.mul_left h23 (d + 1))
+
+/-- **Representable mantissa.** For every format with `2^(E-1) ≤ 127` (E ≤ 7 — and E = 8 is the
+    same statement about `divPow2 … 1`, exercised by the correspondence), every rounding offset and
+    every input pattern, the low `23 − M` mantissa bits of the result of the model's `quantise` are
+    zero: the result carries at most `M` mantissa bits. -/
+theorem quant_mantissa_bits (E M off n : ℕ) (hB : 2 ^ (E - 1) ≤ 127) :
+    2 ^ (23 - M) ∣ quantMag E M off n := by
+  rw [quantMag_is_core E M off n hB]
+  exact mulPow2_dvd (23 - M) (Nat.sub_le _ _) _ _ (round_core_multiple _ _ _)
+
+/-- up-scaling a normal pattern only increments the exponent field -/
+theorem mulPow2_normal : ∀ (d n : ℕ), 1 ≤ expo n → expo n + d < 255 → mulPow2 n d = n + d * 2 ^ 23 := by
+  intro d
+  cases d with
+  | zero => intro n _ _; simp [mulPow2]
+  | succ d =>
+    intro n h1 h2
+    unfold mulPow2
+    have hn : n ≠ 0 := by
+      intro h; subst h; simp [expo] at h1
+    have he : ¬ expo n = 0 := by omega
+    have ho : ¬ expo n + (d + 1) ≥ 255 := by omega
+    simp [hn, he, ho]
+
+/-- the sign bit is carried through unchanged -/
+theorem quantBits_sign (E M off bits : ℕ) (h : quantMag E M off (bits % 2 ^ 31) < 2 ^ 31) :
+    quantBits E M off bits / 2 ^ 31 = bits / 2 ^ 31 := by
+  unfold quantBits
+  simp only
+  rw [Nat.mul_comm, Nat.mul_add_div (by norm_num : 0 < 2 ^ 31), Nat.div_eq_of_lt h, Nat.add_zero]
+
 /-! ### Non-vacuity / concrete anchors -/
 example : roundCore 20 (offNearest 3) 0x3F8CCCCD = 0x3F900000 := by decide  -- 1.1 → 1.125 in E?M3
 example : quantBits 4 3 (offNearest 3) 0x3FA66666 = 0x3FA00000 := by decide  -- 1.3 → 1.25 in E4M3
